@@ -75,7 +75,7 @@ W2 = World(
     'w2',
     [('B0', 7, ['Z']),
      ('B1', None, ['C8', 'C9']),
-     ('B2', 254, ['C8', 'Z', 'C10']),
+     ('B2', 254, ['Z', 'C8', 'C10']),        # zero-sized component first, sized ones after it
      ('B3', None, ['C%d' % i for i in range(8, 24)])],
     [
         [('ent_any',), ('dir_any',)],
